@@ -115,7 +115,7 @@ func cmdCheck(prop, tier string) int {
 	}
 	u, err := loadUniverse(repoDir, specFiles())
 	var viols []violation
-	replayDir := filepath.Join(verifDir, "replays", prop)
+	replayDir := filepath.Join(outDir, "replays", prop)
 	os.RemoveAll(replayDir)
 	os.MkdirAll(replayDir, 0o755)
 	writeReplay := func(name string, content map[string]any) string {
@@ -446,9 +446,9 @@ func writeEvidence(prop, tier string, seed int, cfg *PropertyCfg, funcs []map[st
 		"assumptions": append([]string{"int is mathematical (no overflow)", "strings and slices are values", "OS calls succeed or fail cleanly (no partial writes, no transient read faults)", "termination is not proved"}, assumptions...),
 		"wall_s":      round3(wall), "violations": nviol,
 	}
-	os.MkdirAll(filepath.Join(verifDir, "evidence"), 0o755)
+	os.MkdirAll(filepath.Join(outDir, "evidence"), 0o755)
 	data, _ := json.MarshalIndent(ev, "", " ")
-	os.WriteFile(filepath.Join(verifDir, "evidence", prop+".json"), data, 0o644)
+	os.WriteFile(filepath.Join(outDir, "evidence", prop+".json"), data, 0o644)
 }
 
 // ---------------------------------------------------------------------------
